@@ -105,6 +105,154 @@ pub(crate) mod verif {
             ));
         }
     }
+
+    // ---- step-level events of `fit` (Lloyd iterations with restarts): `kmeans.init`, `kmeans.iter`,
+    // `kmeans.run_end`, `kmeans.result`.  Floats are logged as the bit patterns of their `f64` value.
+
+    // They are recorded only when the process environment has `LINFA_VERIF_STEPS` set (read once), so
+    // that consumers of the `kmeans.par` / `kmeans.red` events see exactly the events they know.
+
+    /// step-level events wanted: hook recording is on and `LINFA_VERIF_STEPS` is set
+    pub(crate) fn steps_on() -> bool {
+        use std::sync::atomic::{AtomicUsize, Ordering};
+        static STEPS: AtomicUsize = AtomicUsize::new(0);
+        if !vh::enabled() {
+            return false;
+        }
+        match STEPS.load(Ordering::Relaxed) {
+            0 => {
+                let on = std::env::var_os("LINFA_VERIF_STEPS").is_some();
+                STEPS.store(if on { 2 } else { 1 }, Ordering::Relaxed);
+                on
+            }
+            v => v == 2,
+        }
+    }
+
+    /// Memberships are logged in full up to this many observations (empty list otherwise)
+    pub(crate) const MEMBERS_LOG_MAX: usize = 256;
+
+    fn bits<F: linfa::Float>(v: F) -> String {
+        format!("\"{:016x}\"", v.to_f64().map(f64::to_bits).unwrap_or(0))
+    }
+
+    fn matrix<F: linfa::Float>(a: &ndarray::Array2<F>) -> String {
+        let rows: Vec<String> = a
+            .rows()
+            .into_iter()
+            .map(|r| {
+                let cells: Vec<String> = r.iter().map(|v| bits(*v)).collect();
+                format!("[{}]", cells.join(","))
+            })
+            .collect();
+        format!("[{}]", rows.join(","))
+    }
+
+    fn members(m: &ndarray::Array1<usize>) -> String {
+        if m.len() > MEMBERS_LOG_MAX {
+            return "[]".to_string();
+        }
+        let cells: Vec<String> = m.iter().map(|c| c.to_string()).collect();
+        format!("[{}]", cells.join(","))
+    }
+
+    /// restart `run` (1-based) starts from these centroids
+    pub(crate) fn step_init<F: linfa::Float>(run: usize, centroids: &ndarray::Array2<F>) {
+        if steps_on() {
+            vh::emit(&format!(
+                "\"ev\":\"kmeans.init\",\"run\":{},\"cen\":{}",
+                run,
+                matrix(centroids)
+            ));
+        }
+    }
+
+    /// iteration `it` (1-based) of restart `run` is complete: the memberships and the sum of the
+    /// distances computed for the centroids the iteration started from, the updated centroids, their
+    /// distance from the previous ones next to the tolerance, and the branch the loop took
+    /// (`stopped`: the loop is left; `dec` names the reason as the stop rule reads)
+    #[allow(clippy::too_many_arguments)]
+    pub(crate) fn step_iter<F: linfa::Float>(
+        run: usize,
+        it: u64,
+        memberships: &ndarray::Array1<usize>,
+        centroids: &ndarray::Array2<F>,
+        inertia: F,
+        shift: F,
+        tolerance: F,
+        max_n_iterations: u64,
+        stopped: bool,
+    ) {
+        if steps_on() {
+            let dec = if !stopped {
+                "continue"
+            } else if shift < tolerance {
+                "converged"
+            } else {
+                "budget"
+            };
+            vh::emit(&format!(
+                "\"ev\":\"kmeans.iter\",\"run\":{},\"it\":{},\"n\":{},\"mem\":{},\"cen\":{},\"inertia\":{},\"shift\":{},\"tol\":{},\"maxit\":{},\"dec\":\"{}\"",
+                run,
+                it,
+                memberships.len(),
+                members(memberships),
+                matrix(centroids),
+                bits(inertia),
+                bits(shift),
+                bits(tolerance),
+                max_n_iterations,
+                dec
+            ));
+        }
+    }
+
+    /// restart `run` ended after `iters` iterations with these centroids, memberships and inertia;
+    /// `kept`: it replaced the best restart so far, `best` is the smallest inertia after the decision
+    pub(crate) fn step_run_end<F: linfa::Float>(
+        run: usize,
+        iters: u64,
+        memberships: &ndarray::Array1<usize>,
+        centroids: &ndarray::Array2<F>,
+        inertia: F,
+        best: F,
+        kept: bool,
+    ) {
+        if steps_on() {
+            vh::emit(&format!(
+                "\"ev\":\"kmeans.run_end\",\"run\":{},\"iters\":{},\"n\":{},\"mem\":{},\"cen\":{},\"inertia\":{},\"best\":{},\"kept\":{}",
+                run,
+                iters,
+                memberships.len(),
+                members(memberships),
+                matrix(centroids),
+                bits(inertia),
+                bits(best),
+                kept
+            ));
+        }
+    }
+
+    /// what `fit` publishes after `runs` restarts
+    pub(crate) fn step_result<F: linfa::Float>(
+        runs: usize,
+        centroids: &ndarray::Array2<F>,
+        cluster_count: &ndarray::Array1<F>,
+        min_inertia: F,
+        inertia: F,
+    ) {
+        if steps_on() {
+            let counts: Vec<String> = cluster_count.iter().map(|v| bits(*v)).collect();
+            vh::emit(&format!(
+                "\"ev\":\"kmeans.result\",\"runs\":{},\"cen\":{},\"counts\":[{}],\"best\":{},\"inertia\":{}",
+                runs,
+                matrix(centroids),
+                counts.join(","),
+                bits(min_inertia),
+                bits(inertia)
+            ));
+        }
+    }
 }
 
 #[cfg_attr(
@@ -336,10 +484,17 @@ impl<F: Float, R: Rng + Clone, DA: Data<Elem = F>, T, D: Distance<F>>
 
         let n_runs = self.n_runs();
 
+        #[cfg(linfa_verif)]
+        let mut verif_run = 0usize;
         for _ in 0..n_runs {
             let mut centroids =
                 self.init_method()
                     .run(self.dist_fn(), self.n_clusters(), observations, &mut rng);
+            #[cfg(linfa_verif)]
+            {
+                verif_run += 1;
+                verif::step_init(verif_run, &centroids);
+            }
             let mut n_iter = 0;
             loop {
                 update_memberships_and_dists(
@@ -356,8 +511,32 @@ impl<F: Float, R: Rng + Clone, DA: Data<Elem = F>, T, D: Distance<F>>
                 centroids = new_centroids;
                 n_iter += 1;
                 if distance < self.tolerance() || n_iter == self.max_n_iterations() {
+                    #[cfg(linfa_verif)]
+                    verif::step_iter(
+                        verif_run,
+                        n_iter,
+                        &memberships,
+                        &centroids,
+                        dists.sum(),
+                        distance,
+                        self.tolerance(),
+                        self.max_n_iterations(),
+                        true,
+                    );
                     break;
                 }
+                #[cfg(linfa_verif)]
+                verif::step_iter(
+                    verif_run,
+                    n_iter,
+                    &memberships,
+                    &centroids,
+                    dists.sum(),
+                    distance,
+                    self.tolerance(),
+                    self.max_n_iterations(),
+                    false,
+                );
             }
             // The memberships and distances computed inside the loop belong to the centroids
             // *before* the last update: recompute them for the centroids of this run, so that
@@ -378,11 +557,27 @@ impl<F: Float, R: Rng + Clone, DA: Data<Elem = F>, T, D: Distance<F>>
             // We keep the centroids which minimize the inertia (defined as the sum of
             // the squared distances of the closest centroid for all observations)
             // over the n runs of the KMeans algorithm.
+            #[cfg(linfa_verif)]
+            let mut verif_kept = false;
             if inertia < min_inertia {
                 min_inertia = inertia;
                 best_centroids = Some(centroids.clone());
                 best_memberships.assign(&memberships);
+                #[cfg(linfa_verif)]
+                {
+                    verif_kept = true;
+                }
             }
+            #[cfg(linfa_verif)]
+            verif::step_run_end(
+                verif_run,
+                n_iter,
+                &memberships,
+                &centroids,
+                inertia,
+                min_inertia,
+                verif_kept,
+            );
         }
 
         match best_centroids {
@@ -394,6 +589,14 @@ impl<F: Float, R: Rng + Clone, DA: Data<Elem = F>, T, D: Distance<F>>
                 best_memberships
                     .iter()
                     .for_each(|&c| cluster_count[c] += F::one());
+                #[cfg(linfa_verif)]
+                verif::step_result(
+                    verif_run,
+                    &centroids,
+                    &cluster_count,
+                    min_inertia,
+                    min_inertia / F::cast(dataset.nsamples()),
+                );
                 Ok(KMeans {
                     centroids,
                     cluster_count,
